@@ -17,6 +17,7 @@ SHIFT = {"GaleShapley.scf": "all", "Irving.scf": "all", "DoubleLambdaTSF": "all"
          "KARV": "second", "LambdaPRV": "second", "LambdaTSF": "second", "MatchTwoQueries": "second"}
 
 class C13(Prop):
+    layouts = True
     translators = ['scoring']   # weights, winners, break_tie regenerated from deterministic_scoring.py / utils.py on every run
     pid = "C13"
     sources = ["socialchoicekit/utils.py", "socialchoicekit/deterministic_scoring.py", "socialchoicekit/deterministic_tournament.py",
@@ -53,6 +54,9 @@ class C13(Prop):
             c = dict(entry=rule + ".scf", family="random", rule=rule, method="scf", P=base, tb=rng.choice(["random", "first", "accept"]), k=rng.randint(1, m + 1), seed=i)
             if i % 4 == 0:
                 c["inplace_first"] = V.rand_profile(rng, len(base), m); c["family"] = "random_history"
+            elif i % 4 == 1:      # history: the same rule object decided an election with another number of alternatives (fewer than k, or more) before
+                m2 = rng.choice([x for x in range(1, 9) if x != m])
+                c["prelude"] = [dict(P=V.rand_profile(rng, rng.randint(1, 5), m2))]; c["family"] = "random_reuse"
             yield c
         for i in range(30 if tier == "quick" else 300):     # large electorates decided by one vote
             m = rng.randint(2, 4); base = rng.choice([70000, 150000, 300000])
@@ -67,6 +71,9 @@ class C13(Prop):
             c = dict(entry=rule + ".scf", family="randomized", rule=rule, method="scf", P=V.rand_profile(rng, n, m), tb="random", k=rng.randint(1, m + 1), seed=i)
             if i % 3 == 0:
                 c["inplace_first"] = V.rand_profile(rng, n, m); c["family"] = "randomized_history"
+            elif i % 3 == 1:
+                m2 = rng.choice([x for x in range(2, 9) if x != m])
+                c["prelude"] = [dict(P=V.rand_profile(rng, rng.randint(1, 5), m2))]; c["family"] = "randomized_reuse"
             yield c
         N = 60 if tier == "quick" else 1000
         for i in range(N):
@@ -141,6 +148,14 @@ class C13(Prop):
         if a["score"] != b["score"]:
             return ("index_shift", "scores depend on the index convention")
         sc = b["score"]; m = len(sc)
+        # the scores the contract refers to are the rule's textbook scores for the k it was constructed with (integer rules: exact)
+        base = case["rule"].replace("Randomized", "")
+        if base in ("Plurality", "Borda", "Veto", "KApproval"):
+            mm = len(case["P"][0]); k = case["k"]; mults = case.get("mults") or [1] * len(case["P"])
+            w = {"Plurality": lambda r: int(r == 1), "Borda": lambda r: mm - r, "Veto": lambda r: int(r < mm), "KApproval": lambda r: int(r <= k)}[base]
+            want = [sum(mu * w(row[j]) for row, mu in zip(case["P"], mults)) for j in range(mm)]
+            if [float(x) for x in sc] != [float(x) for x in want]:
+                return ("wrong_score_basis", "%s (k=%r) works from scores %r, the rule's scores are %r" % (case["rule"], k, sc, want))
         if case["rule"] in RAND:
             ch = b["choices"][-1] if b["choices"] else None
             if ch is None or ch["p"] is None:
